@@ -478,3 +478,97 @@ def coq(e, lits, funcs=None):
         s += "| _ => %s end)" % coq(arms["default"], lits, funcs)
         return s
     raise Untranslatable("cannot print %s" % k)
+
+
+# ---------------------------------------------------------------------------------------------
+# inlining of small helper functions (kernel_header.c: SET_VEC, ORTH_VEC, SCALAR_VEC, clip, ...)
+
+def _rename_expr(e, ren):
+    k = e[0]
+    if k == "var":
+        n = e[1]
+        base, sep, idx = n.partition("[")
+        if base in ren:
+            r = ren[base]
+            if isinstance(r, tuple):         # scalar parameter bound to an expression
+                if sep:
+                    raise Untranslatable("indexing a scalar argument")
+                return r
+            return ("var", r + sep + idx)
+        return e
+    if k == "num" or k == "in":
+        return e
+    if k == "neg":
+        return ("neg", _rename_expr(e[1], ren))
+    if k in ("bin", "cmp"):
+        return (k, e[1], _rename_expr(e[2], ren), _rename_expr(e[3], ren))
+    if k == "ite":
+        return ("ite", _rename_expr(e[1], ren), _rename_expr(e[2], ren), _rename_expr(e[3], ren))
+    if k == "call":
+        return ("call", e[1], [_rename_expr(a, ren) for a in e[2]])
+    raise Untranslatable("rename %s" % k)
+
+
+def _rename_lv(lv, ren):
+    base, sep, idx = lv.partition("[")
+    if base in ren:
+        r = ren[base]
+        if isinstance(r, tuple):
+            raise Untranslatable("assignment to a scalar argument")
+        return r + sep + idx
+    return lv
+
+
+class Inliner:
+    """Turns simple C helper functions into statement / expression macros of the Parser: array parameters are
+    bound by name, scalar parameters by expression, locals get fresh names."""
+    def __init__(self, src):
+        self.src = src
+        self.counter = 0
+        self.stmt_macros = {}
+        self.expr_macros = {}
+
+    def add(self, name):
+        pn, prog = Parser(tokenize(function_text(self.src, name)[1]), self.stmt_macros, self.expr_macros).program(), None
+        prog = pn
+        params = []
+        for p in function_text(self.src, name)[0].split(","):
+            p = p.strip()
+            m = re.search(r"(\*?)\s*([A-Za-z_][A-Za-z0-9_]*)\s*(\[\d*\])?$", p)
+            if not m:
+                raise Untranslatable("parameter %r of %s" % (p, name))
+            params.append((m.group(2), bool(m.group(1) or m.group(3))))
+        is_expr = len(prog) == 1 and prog[0][0] == "return"
+
+        def bind(args):
+            if len(args) != len(params):
+                raise Untranslatable("%s called with %d arguments" % (name, len(args)))
+            ren = {}
+            for (pname, is_ptr), a in zip(params, args):
+                if is_ptr:
+                    if a[0] != "var":
+                        raise Untranslatable("array argument of %s is not a name" % name)
+                    ren[pname] = a[1]
+                else:
+                    ren[pname] = a
+            return ren
+
+        if is_expr:
+            body = prog[0][1]
+            self.expr_macros[name] = lambda args: _rename_expr(body, bind(args))
+        else:
+            def expand(args):
+                ren = bind(args)
+                self.counter += 1
+                out = []
+                for st in prog:
+                    if st[0] != "assign":
+                        raise Untranslatable("helper %s has a %s statement" % (name, st[0]))
+                    lv = st[1]
+                    base = lv.partition("[")[0]
+                    if base not in ren:        # a local of the helper
+                        ren[base] = "%s__%s_%d" % (base, name, self.counter)
+                    out.append(("assign", _rename_lv(lv, ren), _rename_expr(st[2], ren)))
+                return out
+            self.stmt_macros[name] = expand
+        return self
